@@ -54,7 +54,7 @@ let op_of toks = match toks with
              c_dists = nat_list (field r "dists"); c_extra_mattrs = nat_of_int (int_of_string (field r "extra"));
              c_bind = (if bind = "-" || bind = "" then None else if bind = "flag" then Some None
                        else Some (Some (nat_list (if bind = "none" then "-" else bind))));
-             c_xml = fb r "xml" })
+             c_xml = fb r "xml"; c_fails = fb r "fails"; c_needs_libxml = fb r "needslibxml"; c_enosys = fb r "enosys" })
   | "mod" :: t :: r -> OMod (nat_of_int (int_of_string t), mop_of r)
   | "cons" :: t :: r -> OCons (nat_of_int (int_of_string t), cop_of r)
   | _ -> failwith "bad op"
@@ -66,7 +66,7 @@ let static_name = function
 let loc_name = function
   | LTree _ -> "tree" | LDistList _ | LDistFlags _ | LDistObjs _ -> "dist" | LMaFlags _ | LMaCache _ -> "memattr"
   | LCpukinds _ -> "cpukinds" | LStChecked s | LStValue s -> "static:" ^ static_name s
-  | LRefcount -> "refcount" | LRegistry -> "registry"
+  | LRefcount -> "refcount" | LRegistry -> "registry" | LXmlBackend -> "xmlbackend"
 let is_cache_loc = function LDistList _ | LDistFlags _ | LDistObjs _ | LMaFlags _ | LMaCache _ -> true | _ -> false
 
 let flags st t =
@@ -78,7 +78,7 @@ let flags st t =
     Printf.sprintf "nd=%d dv=%s mv=%s" (Stdlib.List.length tp.t_dists) (if dv = "" then "-" else dv) (if mv = "" then "-" else mv)
 
 let () =
-  let st = ref { s_topos = []; s_glob = { g_checked = []; g_envset = []; g_libxml = true; g_users = O } } in
+  let st = ref { s_topos = []; s_glob = { g_checked = []; g_envset = []; g_libxml = true; g_users = O; g_avail = true } } in
   let nthreads = ref 0 in
   let progs = ref [||] in
   (try
